@@ -103,7 +103,12 @@ class Route:
             if f_out:
                 prt = f_out(prt)
             if f_in:
-                assert f_in(prt)[1]  # `pos` must be > 0 if match
+                # validate the value in front of the literal text that follows it
+                # in the url: that is what the filter sees when the url is matched
+                lit_end = pattern_out.find('\r', cidx)
+                if lit_end < 0:
+                    lit_end = len(pattern_out)
+                assert f_in(prt + pattern_out[cidx:lit_end])[1]  # `pos` must be > 0 if match
             ret.append(prt)
 
         if clen:
